@@ -16,10 +16,12 @@ from mc.core import Agg, Unit
 from mc.drivers import stores as S
 from mc.lattice import Emb, chunked
 
-VALS = (None, "x", "y", ["x"])  # None = key absent
+ABSENT = "<absent>"
+VALS = (ABSENT, "x", "y", ["x"])
+VALS_NULL = (ABSENT, "x", ["x"], None, 0)  # JSON null / falsy values are values, not absence
 KEYLISTS = [("a",), ("b",), ("c",), ("a", "b"), ("b", "a"), ("a", "c"), ("c", "a"), ("b", "c"), ("c", "b"), ("a", "b", "c")]
 BOUNDS = {
-    "quick": {"merge": "lists of <=4 events over 16 data shapes (a,b in {absent,x,y,[x]}), durations 2^i and a zero-duration variant, 10 key lists", "chunk": "key-bearing sequences of <=4 events, values {x,y,[x]}, gaps 0/1 unit within a 4-unit span", "sort": "lists of <=4 over 3 timestamps x 3 durations", "limit": "counts 0..n+1", "filter": "lists of <=3 over 5 value shapes x 6 vals lists"},
+    "quick": {"merge": "lists of <=4 events over 16 data shapes (a,b in {absent,x,y,[x]}) and lists of <=3 over 25 shapes (a,b in {absent,x,[x],null,0}), durations 2^i and a zero-duration variant, 10 key lists", "chunk": "key-bearing sequences of <=4 events, values {x,y,[x]}, gaps 0/1 unit within a 4-unit span", "sort": "lists of <=4 over 3 timestamps x 3 durations", "limit": "counts 0..n+1", "filter": "lists of <=3 over 5 value shapes x 6 vals lists"},
     "thorough": {"merge": "as quick", "chunk": "<=5 events", "sort": "<=5", "filter": "<=4"},
 }
 RULE = (
@@ -36,9 +38,9 @@ _G = {}
 
 def mkdata(a, b):
     d = {}
-    if a is not None:
+    if a != ABSENT:
         d["a"] = deepcopy(a)
-    if b is not None:
+    if b != ABSENT:
         d["b"] = deepcopy(b)
     return d
 
@@ -140,12 +142,12 @@ def check_sort(emb, kinds):
     return probs
 
 
-FVALS = (None, "x", "y", ["x"], 1)
-FLISTS = ([], ["x"], ["x", "y"], [["x"]], [1, "y"], ["z"])
+FVALS = (ABSENT, "x", "y", ["x"], 1, None)
+FLISTS = ([], ["x"], ["x", "y"], [["x"]], [1, "y"], ["z"], [None])
 
 
 def check_filter(emb, shapes, vals):
-    evs = [emb.ev(i, 1, ({} if v is None else {"k": deepcopy(v)}) | {"i": i}) for i, v in enumerate(shapes)]
+    evs = [emb.ev(i, 1, ({} if v == ABSENT else {"k": deepcopy(v)}) | {"i": i}) for i, v in enumerate(shapes)]
     snap = [S.ev_tuple(e) for e in evs]
     probs = []
     try:
@@ -153,8 +155,8 @@ def check_filter(emb, shapes, vals):
         exc = [S.ev_tuple(e) for e in filter_keyvals(evs, "k", deepcopy(vals), exclude=True)]
     except Exception as e:
         return [("filter-raised", f"{type(e).__name__}: {e}")]
-    want_inc = [t for t, v in zip(snap, shapes) if v is not None and v in vals]
-    want_exc = [t for t, v in zip(snap, shapes) if not (v is not None and v in vals)]
+    want_inc = [t for t, v in zip(snap, shapes) if v != ABSENT and v in vals]
+    want_exc = [t for t, v in zip(snap, shapes) if not (v != ABSENT and v in vals)]
     if inc != want_inc:
         probs.append(("filter_keyvals-wrong", f"shapes {shapes} vals {vals}: got {[t[3] for t in inc]} expected {[t[3] for t in want_inc]}"))
     if exc != want_exc:
@@ -170,10 +172,10 @@ def _nt_merge(shapes):
     if len(set(map(cj, shapes))) < len(shapes):
         return True
     for a, b in shapes:
-        if a is None or b is None or isinstance(a, list) or isinstance(b, list):
+        if a == ABSENT or b == ABSENT or a is None or b is None or isinstance(a, list) or isinstance(b, list):
             return True
-    avals = {cj(a) for a, _ in shapes if a is not None}
-    bvals = {cj(b) for _, b in shapes if b is not None}
+    avals = {cj(a) for a, _ in shapes if a != ABSENT}
+    bvals = {cj(b) for _, b in shapes if b != ABSENT}
     return bool(avals & bvals)
 
 
@@ -215,7 +217,7 @@ def _unit(args):
                 for sym, det in check_filter(emb, it, vals)[:1]:
                     case = {"fn": "filter", "shapes": list(it), "vals": vals}
                     u.violation(f"filter:{sym}", det, case, size=len(it) * 1000 + len(json.dumps(case)))
-            u.nontrivial += 1 if any(v is None or isinstance(v, list) for v in it) else 0
+            u.nontrivial += 1 if any(v == ABSENT or v is None or isinstance(v, list) for v in it) else 0
     if items:
         u.sample({"fn": kind, "case": json.loads(json.dumps(items[len(items) // 2]))}, cap=1)
     return u.result()
@@ -225,6 +227,9 @@ def _space(ctx):
     n = 4
     shapes = [(a, b) for a in VALS for b in VALS]
     merge = [t for k in range(0, n + 1) for t in itertools.product(shapes, repeat=k)]
+    shapes_null = [(a, b) for a in VALS_NULL for b in VALS_NULL]
+    seen = set(map(cj, merge))
+    merge += [t for k in range(1, 4) for t in itertools.product(shapes_null, repeat=k) if cj(t) not in seen]
     cn = 5 if ctx.thorough else 4
     cel = [(g, d, v) for g in (0, 1) for d in (0, 1) for v in ("x", "y", ["x"])]
     chunk = [t for k in range(0, cn + 1) for t in itertools.product(cel, repeat=k)]
